@@ -117,6 +117,14 @@ func execC11(seg []Ev) []Ev {
 			s.UnreadMany(n)
 		case "reset":
 			s.Reset()
+		case "readmany": // n reads recorded as one step (long lines: one event instead of tens of thousands)
+			n := toInt(in["n"])
+			e["n"] = n
+			last := rune(-2)
+			for j := 0; j < n; j++ {
+				last = s.Read()
+			}
+			e["ret"] = int(last)
 		default:
 			panic("C11: unknown op")
 		}
@@ -290,6 +298,23 @@ func genC11(g *Gen) {
 				}
 			}
 			g.Run("a line break at every offset around the multiples of 64", seg)
+		}
+	}
+	// very long lines (beyond 2^16 columns) followed by a line break of each style: read through, stepped back across the break one
+	// call at a time, read again - the column of a long line is reported exactly however it is kept
+	for _, width := range g.WithRandomSizes([]int{65534, 65535, 65536, 65537, 70000}, 2, 65000, 140000) {
+		for _, br := range []string{"\n", "\r\n", "\r", "\n\r"} {
+			if !g.Thorough() && br != "\n" && width != 65536 {
+				continue
+			}
+			content := []rune(strings.Repeat("a", width) + br + "b" + br + "cd")
+			n := width + len([]rune(br)) + 1
+			seg := []Ev{{"op": "new", "content": cpsR(content)}, {"op": "readmany", "n": n}}
+			for j := 0; j < len([]rune(br))+2; j++ {
+				seg = append(seg, Ev{"op": "unread"})
+			}
+			seg = append(seg, Ev{"op": "readmany", "n": len([]rune(br)) + 3}, Ev{"op": "unreadmany", "n": 3}, Ev{"op": "read"}, Ev{"op": "readmany", "n": 8}, Ev{"op": "unread"}, Ev{"op": "unread"})
+			g.Run("lines of more than 2^16 columns", seg)
 		}
 	}
 	// multi-unread by large counts, from the end-of-input slot and from the middle
